@@ -1,5 +1,5 @@
 (* C08 model driver: `open C08_m`, conv.inc and Common are prepended by bin/build_driver.
-   Case grammar: see checks/C08.py.  One line = one table + a list of operations; Set_Prefactor / Multiply change the
+   Case grammar: see checks/C08.py.  One line = one object (made by one of the constructors) + a list of operations; Set_Prefactor / Multiply change the
    object, every query runs on (a copy of) the current object with a fresh search state. *)
 open Common
 exception Stop of string
@@ -9,79 +9,101 @@ let fops = { fops with npowi = (fun x k -> if int_of_z k = 2 then x *. x else fo
 let scaled dim l = if dim > 0.0 then List.map (fun v -> v *. dim) l else l
 let g3 = [0.5 -. sqrt 0.6 /. 2.0; 0.5; 0.5 +. sqrt 0.6 /. 2.0]
 
+let run1 r o xa =
+  let f x = unres (interpolate fops !o x) in
+  let nq = integer r in
+  for _ = 1 to nq do
+    match word r with
+    | "P" -> let c = num r in o := set_prefactor !o c
+    | "X" -> let c = num r in o := multiply fops !o c
+    | "I" -> put_f (f (num r))
+    | "D" -> let k = integer r in let x = num r in put_f (unres (derivative fops !o x (z_of_int k)))
+    | "N" -> let a = num r in let b = num r in put_f (unres (integrate fops !o a b))
+    | "m" -> let a = num r in let b = num r in put_f (unres (local_minimum fops !o a b))
+    | "M" -> let a = num r in let b = num r in put_f (unres (local_maximum fops !o a b))
+    | "g" -> put_f (unres (global_minimum fops !o))
+    | "G" -> put_f (unres (global_maximum fops !o))
+    | "E" -> let a = num r in let b = num r in let n = integer r in
+        put_f (unres (local_minimum fops !o a b)); put_f (unres (local_maximum fops !o a b));
+        for k = 0 to n do put_f (f (if k = n then b else a +. (b -. a) *. float_of_int k /. float_of_int n)) done
+    | "Z" -> let n = integer r in
+        put_f (unres (global_minimum fops !o)); put_f (unres (global_maximum fops !o));
+        let na = Array.length xa in
+        let a = xa.(0) and b = xa.(na - 1) in
+        for k = 0 to n do put_f (f (if k = n then b else a +. (b -. a) *. float_of_int k /. float_of_int n)) done;
+        put_f (f (a -. 0.5 *. (1e-2 *. (xa.(1) -. xa.(0)))));
+        put_f (f (b +. 0.5 *. (1e-2 *. (xa.(na - 1) -. xa.(na - 2)))))
+    | "Q" -> let a = num r in let b = num r in
+        put_f (unres (integrate fops !o a b)); put_f (unres (integrate fops !o b a));
+        let lo = Float.min a b and hi = Float.max a b in
+        let brk = [lo] @ List.filter (fun x -> x > lo && x < hi) (Array.to_list xa) @ [hi] in
+        let rec pieces = function
+          | u :: (v :: _ as rest) -> List.iter (fun w -> put_f (f (u +. (v -. u) *. w))) g3; pieces rest
+          | _ -> () in
+        pieces brk
+    | "A" -> let a = num r in let b = num r in let c = num r in
+        put_f (unres (integrate fops !o a b)); put_f (unres (integrate fops !o b c)); put_f (unres (integrate fops !o a c))
+    | "B" -> let a = num r in let b = num r in
+        put_f (unres (integrate fops !o a b)); put_f (unres (local_minimum fops !o a b)); put_f (unres (local_maximum fops !o a b))
+    | "U" -> let a = num r in let x = num r in let d = num r in
+        put_f (unres (integrate fops !o a (x +. d))); put_f (unres (integrate fops !o a (x -. d)));
+        put_f (f x); put_f (unres (derivative fops !o x (z_of_int 2)))
+    | q -> failwith ("unknown op " ^ q)
+  done
+
+let run2 r o xa ya =
+  let nq = integer r in
+  for _ = 1 to nq do
+    match word r with
+    | "P" -> let c = num r in o := set_prefactor2 !o c
+    | "X" -> let c = num r in o := multiply2 fops !o c
+    | "I" -> let x = num r in let y = num r in put_f (unres (interpolate2 fops !o x y))
+    | "g" -> put_f (unres (global_minimum2 fops !o))
+    | "G" -> put_f (unres (global_maximum2 fops !o))
+    | "Z" -> let n = integer r in
+        put_f (unres (global_minimum2 fops !o)); put_f (unres (global_maximum2 fops !o));
+        let x0 = xa.(0) and x1 = xa.(Array.length xa - 1) and y0 = ya.(0) and y1 = ya.(Array.length ya - 1) in
+        for a = 0 to n do
+          let x = if a = n then x1 else x0 +. (x1 -. x0) *. float_of_int a /. float_of_int n in
+          for b = 0 to n do
+            let y = if b = n then y1 else y0 +. (y1 -. y0) *. float_of_int b /. float_of_int n in
+            put_f (unres (interpolate2 fops !o x y))
+          done
+        done;
+        put_f (unres (interpolate2 fops !o (x0 -. 0.5 *. (1e-2 *. (xa.(1) -. xa.(0)))) y0))
+    | q -> failwith ("unknown op " ^ q)
+  done
+
+(* the abscissae of a data table as the harness computes them for the sampling grids: sorted, duplicates removed *)
+let column rows k = List.filter_map (fun row -> List.nth_opt row k) rows
+let sort_unique l = List.sort_uniq compare l
+
 let handler r =
   try
     match word r with
     | "t1" | "h1" ->
         let xd = num r in let fd = num r in let xs = list r in let ys = list r in
         let o = ref (unres (construct fops xs ys xd fd)) in
-        let xa = Array.of_list (scaled xd xs) in
-        let f x = unres (interpolate fops !o x) in
-        let nq = integer r in
-        for _ = 1 to nq do
-          match word r with
-          | "P" -> let c = num r in o := set_prefactor !o c
-          | "X" -> let c = num r in o := multiply fops !o c
-          | "I" -> put_f (f (num r))
-          | "D" -> let k = integer r in let x = num r in put_f (unres (derivative fops !o x (z_of_int k)))
-          | "N" -> let a = num r in let b = num r in put_f (unres (integrate fops !o a b))
-          | "m" -> let a = num r in let b = num r in put_f (unres (local_minimum fops !o a b))
-          | "M" -> let a = num r in let b = num r in put_f (unres (local_maximum fops !o a b))
-          | "g" -> put_f (unres (global_minimum fops !o))
-          | "G" -> put_f (unres (global_maximum fops !o))
-          | "E" -> let a = num r in let b = num r in let n = integer r in
-              put_f (unres (local_minimum fops !o a b)); put_f (unres (local_maximum fops !o a b));
-              for k = 0 to n do put_f (f (if k = n then b else a +. (b -. a) *. float_of_int k /. float_of_int n)) done
-          | "Z" -> let n = integer r in
-              put_f (unres (global_minimum fops !o)); put_f (unres (global_maximum fops !o));
-              let na = Array.length xa in
-              let a = xa.(0) and b = xa.(na - 1) in
-              for k = 0 to n do put_f (f (if k = n then b else a +. (b -. a) *. float_of_int k /. float_of_int n)) done;
-              put_f (f (a -. 0.5 *. (1e-2 *. (xa.(1) -. xa.(0)))));
-              put_f (f (b +. 0.5 *. (1e-2 *. (xa.(na - 1) -. xa.(na - 2)))))
-          | "Q" -> let a = num r in let b = num r in
-              put_f (unres (integrate fops !o a b)); put_f (unres (integrate fops !o b a));
-              let lo = Float.min a b and hi = Float.max a b in
-              let brk = [lo] @ List.filter (fun x -> x > lo && x < hi) (Array.to_list xa) @ [hi] in
-              let rec pieces = function
-                | u :: (v :: _ as rest) -> List.iter (fun w -> put_f (f (u +. (v -. u) *. w))) g3; pieces rest
-                | _ -> () in
-              pieces brk
-          | "A" -> let a = num r in let b = num r in let c = num r in
-              put_f (unres (integrate fops !o a b)); put_f (unres (integrate fops !o b c)); put_f (unres (integrate fops !o a c))
-          | "B" -> let a = num r in let b = num r in
-              put_f (unres (integrate fops !o a b)); put_f (unres (local_minimum fops !o a b)); put_f (unres (local_maximum fops !o a b))
-          | "U" -> let a = num r in let x = num r in let d = num r in
-              put_f (unres (integrate fops !o a (x +. d))); put_f (unres (integrate fops !o a (x -. d)));
-              put_f (f x); put_f (unres (derivative fops !o x (z_of_int 2)))
-          | q -> failwith ("unknown op " ^ q)
-        done
-    | "t2" ->
+        run1 r o (Array.of_list (scaled xd xs))
+    | "d1" | "e1" ->
+        let xd = num r in let fd = num r in let rows = table r in
+        let o = ref (unres (construct_rows fops rows xd fd)) in
+        run1 r o (Array.of_list (scaled xd (column rows 0)))
+    | "t0" | "h0" ->
+        let o = ref (unres (construct_default fops)) in
+        run1 r o [| -1.0; 0.0; 1.0 |]
+    | "t2" | "h2" ->
         let xd = num r in let yd = num r in let fd = num r in
         let xs = list r in let ys = list r in let ft = table r in
         let o = ref (unres (construct2 fops xs ys ft xd yd fd)) in
-        let xa = Array.of_list (scaled xd xs) and ya = Array.of_list (scaled yd ys) in
-        let nq = integer r in
-        for _ = 1 to nq do
-          match word r with
-          | "P" -> let c = num r in o := set_prefactor2 !o c
-          | "X" -> let c = num r in o := multiply2 fops !o c
-          | "I" -> let x = num r in let y = num r in put_f (unres (interpolate2 fops !o x y))
-          | "g" -> put_f (unres (global_minimum2 fops !o))
-          | "G" -> put_f (unres (global_maximum2 fops !o))
-          | "Z" -> let n = integer r in
-              put_f (unres (global_minimum2 fops !o)); put_f (unres (global_maximum2 fops !o));
-              let x0 = xa.(0) and x1 = xa.(Array.length xa - 1) and y0 = ya.(0) and y1 = ya.(Array.length ya - 1) in
-              for a = 0 to n do
-                let x = if a = n then x1 else x0 +. (x1 -. x0) *. float_of_int a /. float_of_int n in
-                for b = 0 to n do
-                  let y = if b = n then y1 else y0 +. (y1 -. y0) *. float_of_int b /. float_of_int n in
-                  put_f (unres (interpolate2 fops !o x y))
-                done
-              done;
-              put_f (unres (interpolate2 fops !o (x0 -. 0.5 *. (1e-2 *. (xa.(1) -. xa.(0)))) y0))
-          | q -> failwith ("unknown op " ^ q)
-        done
+        run2 r o (Array.of_list (scaled xd xs)) (Array.of_list (scaled yd ys))
+    | "d2" ->
+        let xd = num r in let yd = num r in let fd = num r in let rows = table r in
+        let o = ref (unres (construct2_table fops rows xd yd fd)) in
+        run2 r o (Array.of_list (scaled xd (sort_unique (column rows 0)))) (Array.of_list (scaled yd (sort_unique (column rows 1))))
+    | "z2" ->
+        let o = ref (unres (construct2_default fops)) in
+        run2 r o [| -1.0; 0.0; 1.0 |] [| -1.0; 0.0; 1.0 |]
     | o -> put_w ("MODELERR unknown_op_" ^ o)
   with Stop s -> Buffer.clear buf; first := true; put_w s
 
